@@ -27,7 +27,7 @@ ATOMS: List[str] = [
 ]
 UNHASHABLE = {"MyList([0])", "MyDict(a=0)", "MySet()"}
 # representatives: one per inference arm (int-like atom, str atom, None, user instance, class object, callable, generator)
-REPS: List[str] = ["0", "'a'", "None", "Derived()", "int", "len", "genfunc()"]
+REPS: List[str] = ["0", "'a'", "None", "Derived()", "int", "Base", "len", "genfunc()"]
 REPS3: List[str] = ["0", "'a'", "None"]
 
 
@@ -97,7 +97,8 @@ D1_REPS: List[str] = [
     "set()", "{0}", "()", "(0,)", "(0, 'a')", "('a',)",
     "{}", "{'a': 0}", "{'a': 'a'}", "{'b': 0}", "{'a': 0, 'b': 'a'}", "{'a': None}", "{1: 0}", "{'a': 0, 1: 0}",
     "defaultdict(int)", "defaultdict(int, {'a': 0})",
-    "[{'a': 0}]", "[{'b': 'a'}]", "({'a': 0},)", "{'a': {'a': 0}}", "{'a': {'b': 0}}", "{'a': [0]}", "{'a': []}",
+    "[{'a': 0}]", "[{'b': 'a'}]", "[{'c': 0}]", "[{'a': 0}, {'b': 'a'}]", "[{'a': 0}, {'a': 0, 'b': 'a'}]", "[{'a': 0, 'b': 'a'}]",
+    "({'a': 0},)", "{'a': {'a': 0}}", "{'a': {'b': 0}}", "{'a': [0]}", "{'a': []}",
 ]
 
 
@@ -119,7 +120,7 @@ def depth3() -> List[str]:
 
 def triple_reps() -> List[str]:
     """Representative values for exhaustive triples (one per merge-arm seam)."""
-    return REPS + D1_REPS + ["Base()", "Derived2()", "True", "[{'a': 0}, {'b': 0}]", "{'a': 0, 'b': 0, 'c': 0}", "MyDict(a=0)", "Base"]
+    return REPS + D1_REPS + ["[{'c': 0, 'd': 0}]", "[{'e': 0}]", "[{'c': 0}, {'d': None}]", "Base()", "Derived2()", "True", "[{'a': 0}, {'b': 0}]", "{'a': 0, 'b': 0, 'c': 0}", "MyDict(a=0)", "Base"]
 
 
 def string_key_dict(n: int, val: str = "0", start: int = 0) -> str:
